@@ -98,6 +98,21 @@ func (r *RecvA) URLFor(s string) (string, error) {
 }
 func (r *RecvA) X(n int64) error      { r.rec(fmt.Sprintf("X(%d)", n)); return nil }
 func (r *RecvA) Fails(s string) error { r.rec("Fails"); return fmt.Errorf("boom %s", s) }
+// codedErr is an error that carries a JSON-RPC code of its own (as the errors of nested calls do: *ErrResponse from a
+// Remote, go-ethereum RPC errors from the node behind an agent).
+type codedErr struct{ code int }
+
+func (e codedErr) Error() string  { return fmt.Sprintf("nested call failed with code %d", e.code) }
+func (e codedErr) ErrorCode() int { return e.code }
+
+// FailsCoded runs and then fails with an error that carries the given code.
+func (r *RecvA) FailsCoded(code int64) error {
+	r.rec(fmt.Sprintf("FailsCoded(%d)", code))
+	if code%2 == 0 {
+		return codedErr{int(code)}
+	}
+	return &jsonrpc2.ErrResponse{Code: int(code), Message: "relayed"}
+}
 func (r *RecvA) hiddenMethod(s string) error {
 	r.rec("hiddenMethod")
 	return nil
@@ -120,6 +135,7 @@ var recvATable = []c16Method{
 	{"Three", []string{"string", "int", "bool"}, true},
 	{"TailPtr", []string{"string", "ptr"}, true},
 	{"Fails", []string{"string"}, true},
+	{"FailsCoded", []string{"int"}, true},
 	{"ID", nil, true},
 	{"URLFor", []string{"string"}, true},
 	{"X", []string{"int"}, true},
@@ -136,7 +152,7 @@ func lowerFirst(s string) string {
 // jsonArgs: value classes per position
 var c16JSON = map[string][]string{
 	"string": {`"hello"`, `""`, `"ünï"`},
-	"int":    {`7`, `-3`, `0`},
+	"int":    {`7`, `-3`, `0`, `-32601`, `-32602`, `-32600`},
 	"float":  {`1.5`},
 	"bigint": {`9223372036854775808`, `-9223372036854775809`, `1e19`, `1e30`, `18446744073709551616`}, // integral, but no int64
 	"bool":   {`true`, `false`},
@@ -230,6 +246,8 @@ func c16ExpectCall(goName string, vals []string) string {
 			json.Unmarshal([]byte(vals[0]), &xs)
 		}
 		return fmt.Sprintf("SliceArg(%q)", xs)
+	case "FailsCoded":
+		return fmt.Sprintf("FailsCoded(%d)", num(0))
 	case "Three":
 		var b bool
 		if len(vals) > 2 {
@@ -447,6 +465,12 @@ func c16LibraryCase(rt *rapid.T, rec *vt.Rec) {
 			if em.goName == "Fails" {
 				if code(resp) != jsonrpc2.ErrCodeInternal {
 					rt.Fatalf("method error must be reported as an error reply: %s", desc)
+				}
+			} else if em.goName == "FailsCoded" {
+				// the method RAN and failed: whatever code its error carries, the reply must not say "no such method" or
+				// "invalid parameters" - those two are the dispatcher's way of saying that nothing was run
+				if c := code(resp); c == 0 || c == jsonrpc2.ErrCodeMethodNotFound || c == jsonrpc2.ErrCodeInvalidParams {
+					rt.Fatalf("a registered method, called with exactly its parameters, ran and failed; the reply carries code %d (method-not-found / invalid-params mean that nothing was run; no error at all hides the failure): %s", c, desc)
 				}
 			} else if code(resp) != 0 {
 				rt.Fatalf("correct call answered with an error: %s: %v", desc, resp.Response.Error)
